@@ -9,7 +9,7 @@ GenNext ==
   \/ \E t \in Targets : Get(t)
   \/ \E w \in Workers : Dequeue(w) \/ ProbeOK(w) \/ ProbeFail(w)
   \/ \E o \in timers : TimerFire(o)
-  \/ ToggleInfo
+  \/ ToggleInfo \/ ToggleRules
 GenSpec == Init /\ [][GenNext]_vars
 View == <<table, st, nobj, queue, busy, timers, fails, info>>
 \* schedules for the harness: the history of a simulated behaviour
